@@ -18,6 +18,7 @@ mod hier;
 mod fstw;
 mod pair;
 mod loadseq;
+mod detect;
 
 thread_local! {
     pub static LAST_PANIC: std::cell::RefCell<String> = std::cell::RefCell::new(String::new());
@@ -46,11 +47,14 @@ pub fn dispatch(line: &str) -> String {
     }
     match toks[0] {
         "tables" => tables::tables(&toks),
+        "detect" => detect::detect(&toks),
+        "detectfile" => detect::detectfile(&toks),
         "nsig" => loadseq::nsig(&toks),
         "loadseq" => loadseq::loadseq(&toks),
         "pairfile" => pair::pairfile(&toks),
         "fstw" => fstw::fstw(&toks),
         "hier" => hier::hier(&toks),
+        "isfst" => debugcmd::isfst(&toks),
         "dumpfile" => debugcmd::dumpfile(&toks),
         "entryvcd" => entry::entryvcd(&toks),
         "entryfile" => entry::entryfile(&toks),
